@@ -352,7 +352,8 @@ class Input(object):
             self.hash_type = self.signatures[0].hash_type
             self.keys = [Key(self.witnesses[1], network=self.network, strict=self.strict)]
 
-        self.update_scripts(hash_type=self.hash_type)
+        # update_scripts() leaves the signature out when its argument is 0, hash type 0 is a (non-standard) hash type
+        self.update_scripts(hash_type=self.hash_type or SIGHASH_ALL)
 
     @classmethod
     def parse(cls, raw, witness_type='segwit', index_n=0, strict=True, network=DEFAULT_NETWORK):
